@@ -341,7 +341,7 @@ func builtinArrayReverse(call FunctionCall) Value {
 		lower.index++
 	}
 
-	return call.This
+	return objectValue(thisObject) // ToObject(this), not the raw this value (15.4.4.8 step 7, 15.4.4.11)
 }
 
 func sortCompare(thisObject *object, index0, index1 uint, compare *object) int {
@@ -470,7 +470,7 @@ func builtinArraySort(call FunctionCall) Value {
 	if length > 1 {
 		arraySortQuickSort(thisObject, 0, length-1, compare)
 	}
-	return call.This
+	return objectValue(thisObject) // ToObject(this), not the raw this value (15.4.4.8 step 7, 15.4.4.11)
 }
 
 func builtinArrayIsArray(call FunctionCall) Value {
